@@ -24,6 +24,7 @@ ROOT = ROOTS[param('root', 0)]
 # that rebuilds the path
 KF_TILDE = param('kf_tilde', False)
 KF_DRIVE = param('kf_drive', False)
+KF_DRIVECOMP = param('kf_drivecomp', False)
 
 
 def _walk(s):
@@ -130,6 +131,8 @@ def p_parent_append(s: str) -> bool:
     par = p.parent()
     base = p.basename()
     if _kf(par.suffix):
+        return True
+    if KF_DRIVECOMP and par.suffix and base[1:2] == ':':
         return True
     ok = par.directory and par.root == p.root and par.append(base) == p
     ok = ok and '/'.join(p.split()) == p.suffix and p.splitleaf() == (par, base)
